@@ -8,7 +8,7 @@ TRUSTED_BASE = [
     "hand-written model coq/Model/ShutdownM.v of shutdown.rs: a broadcast(1) notification (a value sent after a subscription stays pending for that subscriber) and an mpsc channel whose senders are the completion guards",
     "translator tools/gen_tables.py -> Generated/ShutdownFacts.v (channels, submit, completion drops the original sender then waits for the channel to close, guard = clone of the sender if it still exists, wait tolerates Lagged; every listener / tunnel / service handler registers both halves under one lock and winds its codec down gracefully)",
     "tokio's broadcast and mpsc channels are library code: their behaviour is what the scripted runs exercise",
-    "hand-written model h1_close of coq/Model/ShutdownM.v (the orderly close of an HTTP/1.1 session against the time its client takes what is left); facts HTTP1_ORDERLY_CLOSE_BOUNDED, HTTP1_GRACEFUL_SHUTDOWN_TIMEOUT_MS",
+    "hand-written model h1_close of coq/Model/ShutdownM.v (the orderly close of an HTTP/1.1 session against the time its client takes what is left); facts HTTP1_ORDERLY_CLOSE_BOUNDED, HTTP1_GRACEFUL_SHUTDOWN_TIMEOUT_MS; h2_close (an HTTP/2 session's streams in flight against that bound) with fact SESSION_CLOSE_BOUND_IS_FOR_HTTP1_ONLY (the arms of shutdown.rs close_within_bound)",
     "extraction + driver.ml, cross-checked against vm_compute; harness door verif::shutdown (register / wait / finish) with the coordinator holding the lock while it awaits completion, as endpoint/src/main.rs does",
 ]
 ASSUMPTIONS = [
@@ -16,7 +16,7 @@ ASSUMPTIONS = [
     "the graceful wind-down of each codec (HTTP/2 GOAWAY, HTTP/1.1 flush and close, QUIC close) is the codec's graceful_shutdown: its call after the notification is a regenerated structural fact, its effect is covered for HTTP/1.1 by C08's end-of-stream cases",
 ]
 RULE = ("interleavings of up to 14 operations over up to 5 participants: register, start waiting, submit (once or twice), wind down (before or after observing), "
-        "coordinator starts the completion wait, observe; late registration after completion has returned; participants that never wait; real tunnel / ping / speedtest sessions as participants (completion waits for a live session, a submission winds it down); the real endpoint with live sessions of every transport, among them an HTTP/1.1 tunnel whose upload is stalled and one whose download is stalled (a client that reads nothing); the known hazard "
+        "coordinator starts the completion wait, observe; late registration after completion has returned; participants that never wait; real tunnel / ping / speedtest sessions as participants (completion waits for a live session, a submission winds it down); the real endpoint with live sessions of every transport, among them an HTTP/1.1 tunnel whose upload is stalled and one whose download is stalled (a client that reads nothing), and an HTTP/2 tunnel in the middle of a slow download whose client reads all the time; the known hazard "
         "(registration while completion is awaited under the lock, one worker thread); non-trivial = every case; distinct = distinct script")
 
 
@@ -95,6 +95,12 @@ def gen_cases(rng, ctx):
         l = line("c19_front", [[mask]])
         lm = line("c19_front", [[mask & 223]])
         cases.append(Case(l, lm, kind="endpoint:sessions-%d" % mask, nontrivial=mask != 0, meta={"front": True, "mask": mask}))
+    # an HTTP/2 tunnel in the middle of a slow download whose client reads all the time: the destination writes 1 KiB every 250 ms,
+    # 52 KiB in all (13 s), the shutdown is submitted when the client has 4 KiB. Graceful for HTTP/2 is GOAWAY: no new streams, the
+    # stream in flight runs to its end; completion returns when that session has finished, not before and not long after
+    for chunks, every, after in [(52, 250, 4096)]:
+        l = line("c19_h2_drain", [[chunks, every, after]])
+        cases.append(Case(l, None, kind="endpoint:h2-download-in-flight", nontrivial=True, meta={"drain": True, "chunks": chunks, "every": every, "after": after}))
     # the real binary (endpoint/src/main.rs) as a process: live sessions, SIGINT, what each client sees, the exit
     for mask in ([31, 2, 4, 1, 8, 16, 6] + ([31, 27, 21, 0] if thorough else [])):
         l = line("bin_run", [[1, mask, 0], list(b"u1"), list(b"p1")])
@@ -167,6 +173,29 @@ def judge(case, impl, model, spec, ctx):
         if code != 0:
             return [("violation", "%s: every session wound down and was ended by its client, but the process %s" % (
                 what, "was still running 5 s after the signal" if code == 1000 else "exited with code %d" % code))]
+        return []
+    if case.meta.get("drain"):
+        if impl == "996":
+            ctx.setdefault("skipped_env", []).append(case.kind)
+            return []
+        got, clean, end_ms, completed, completed_ms, already, wrote_all = untok(impl.split()[0])
+        m = case.meta
+        size = m["chunks"] * 1024
+        what = ("real endpoint, HTTP/2 CONNECT tunnel to a destination that writes 1 KiB every %d ms, %d bytes in all, and closes; the client reads all the time; "
+                "shutdown submitted when the client has %d bytes" % (m["every"], size, m["after"]))
+        if got == 997:
+            return [("violation", "%s: the client received bytes the destination never wrote" % what)]
+        if got != size or not clean:
+            return [("violation", "%s: the client got %d of %d bytes and the stream %s %d ms after the submission%s: the tunnel in flight was cut, not wound down "
+                                  "gracefully (GOAWAY lets the streams in flight run to their end)" % (
+                                      what, got, size, "ended cleanly" if clean else "failed", end_ms,
+                                      "" if wrote_all else " (the destination was cut off before it had written everything)"))]
+        if already:
+            return [("violation", "%s: waiting for completion had returned (%d ms after the submission) well before the session's stream ended (%d ms after it, all %d bytes "
+                                  "received)" % (what, completed_ms, end_ms, size))]
+        if not completed:
+            return [("violation", "%s: every byte arrived and the stream ended cleanly %d ms after the submission, the client ended its half and dropped the connection, "
+                                  "but waiting for completion had not returned 8 s later" % (what, end_ms))]
         return []
     if case.meta.get("front"):
         if impl == "996":
